@@ -30,6 +30,11 @@ pub mod std_shim {
     }
 }
 
+/// Payload of the panic with which the simulator unwinds a search thread that keeps running although
+/// every poll has been answering "stop" for a long time (a search that ignores the stop flag cannot be
+/// ended in any other way).  Recognised by the runners; never escapes the simulator.
+pub struct SimKill;
+
 /// Identity of one `TimeStrategy` (= one `go`), handed out by `limits()`.
 #[derive(Clone, Copy, Debug)]
 pub struct Epoch {
@@ -88,6 +93,8 @@ pub struct SearchRec {
     /// an absolute simulated instant: a poll that sees the clock past it must be the last one
     pub caller_deadline_ns: Option<u64>,
     pub polls_past_deadline: u64,
+    /// should_stop calls (= nodes) since the stop flag was last consulted
+    pub calls_since_poll: u64,
     pub finished: bool,
     /// clock value when `bestmove` was logged / the search returned
     pub finished_ns: Option<u64>,
@@ -186,6 +193,8 @@ pub struct Sim {
     /// bound for the "stop honoured" liveness oracle, in polls after the stop line was handed over
     pub stop_liveness_bound: u64,
     pub liveness_violation: Option<String>,
+    /// polls answered "stop" because of tear-down / budget exhaustion since that state began
+    pub polls_since_teardown: u64,
     /// polls of all searches so far (the simulator's measure of search-thread progress)
     pub global_polls: u64,
     /// the input thread took this line at this global poll count and has not come back for the next
@@ -193,6 +202,8 @@ pub struct Sim {
     /// hard cap on should_stop calls per search (harness budget; exceeding it => inconclusive)
     pub node_cap: u64,
     pub node_cap_hit: bool,
+    /// a search thread was unwound by the simulator (SimKill)
+    pub killed: bool,
     /// output observers (GUI model): called with every complete line
     pub on_output: Option<Box<dyn FnMut(&mut SimView<'_>, u8, &str)>>,
 }
@@ -268,10 +279,12 @@ impl Sim {
             faults: FaultCounters::default(),
             stop_liveness_bound: 4096,
             liveness_violation: None,
+            polls_since_teardown: 0,
             global_polls: 0,
             input_busy: None,
             node_cap: u64::MAX,
             node_cap_hit: false,
+            killed: false,
             on_output: None,
         }
     }
@@ -560,6 +573,7 @@ pub fn limits(
                 .filter(|(l, is_clock)| !*is_clock || (move_overhead.as_nanos() as u64).saturating_mul(2) <= *l)
                 .map(|(l, _)| now.saturating_add(l)),
             polls_past_deadline: 0,
+            calls_since_poll: 0,
             finished: false,
             finished_ns: None,
             max_poll_gap_ns: 0,
@@ -592,12 +606,31 @@ pub fn enter_should_stop(epoch: &Epoch, nodes: u64) -> bool {
     if epoch.id == NO_EPOCH {
         return false;
     }
-    with_sim(|s| {
+    let mut kill = false;
+    let outer = with_sim(|s| {
         if s.in_should_stop {
             s.in_should_stop = false;
             return false;
         }
         s.in_should_stop = true;
+        // a search that examines this many nodes without ever consulting the stop flag can neither be
+        // stopped nor time-limited (and would spin for ever inside the simulator)
+        let starve_limit = (s.poll_interval.unwrap_or(10_000) * 50).max(200_000);
+        if let Some(r) = s.searches.get_mut(epoch.id) {
+            r.calls_since_poll += 1;
+            if r.calls_since_poll > starve_limit {
+                kill = true;
+                if s.liveness_violation.is_none() {
+                    s.liveness_violation = Some(format!(
+                        "search #{} examined {} positions without consulting the stop flag once: the stop flag is ignored",
+                        r.id, r.calls_since_poll
+                    ));
+                }
+                s.killed = true;
+                s.in_should_stop = false;
+                return false;
+            }
+        }
         let frozen = s.frozen_polls_left > 0;
         let tau = s.tau_ps;
         let cap = s.node_cap;
@@ -630,7 +663,11 @@ pub fn enter_should_stop(epoch: &Epoch, nodes: u64) -> bool {
         s.now_ns += advance;
         true
     })
-    .unwrap_or(false)
+    .unwrap_or(false);
+    if kill {
+        std::panic::panic_any(SimKill);
+    }
+    outer
 }
 
 pub fn leave_should_stop(epoch: &Epoch, nodes: u64, answer: bool) -> bool {
@@ -661,10 +698,12 @@ pub fn stop_poll(epoch: &Epoch) -> bool {
         return false;
     }
     let mut notify = false;
+    let mut kill = false;
     let forced = with_sim(|s| {
         let now_before = s.now_ns;
         let Some(r) = s.searches.get_mut(epoch.id) else { return false };
         r.polls += 1;
+        r.calls_since_poll = 0;
         let (id, poll, nodes) = (r.id, r.polls, r.last_nodes);
         let mut forced = false;
         if let Some(k) = r.stop_at_poll {
@@ -755,20 +794,42 @@ pub fn stop_poll(epoch: &Epoch) -> bool {
                 r.forced_at = Some((poll, nodes));
                 s.faults.forced_stops += 1;
             }
+            if let Some((p, _)) = r.forced_at {
+                if poll > p + KILL_AFTER_POLLS {
+                    kill = true;
+                }
+            }
         }
         if s.teardown {
             if !forced {
                 s.faults.teardown_stops += 1;
             }
             forced = true;
+            s.polls_since_teardown += 1;
+            if s.polls_since_teardown > KILL_AFTER_POLLS {
+                kill = true;
+            }
         }
         notify = s.gui_waiting && matches!(s.gui_wait_for.polls, Some((sid, n)) if sid == id && poll >= n);
         forced
     })
     .unwrap_or(false);
+    if kill {
+        // this search has ignored `KILL_AFTER_POLLS` consecutive "stop" answers
+        with_sim(|s| {
+            if s.liveness_violation.is_none() {
+                s.liveness_violation = Some(format!("a search went on for {KILL_AFTER_POLLS} polls although every poll answered stop: the stop flag is ignored"));
+            }
+            s.killed = true;
+        });
+        std::panic::panic_any(SimKill);
+    }
     if notify {
         // a GUI model waiting for "n polls of search work" re-evaluates its condition
         notify_gui_if_waiting();
     }
     forced
 }
+
+/// A search that is told to stop at every poll gets this many more polls before it is unwound.
+pub const KILL_AFTER_POLLS: u64 = 2_000;
